@@ -509,6 +509,7 @@ def check(run):
     check_restored_block_with_async_init(run)
     check_restored_source_sends_event(run)
     check_timer_transition_saved(run)
+    check_restored_state_data(run)
 
 
 def check_interrupted_stop(run):
@@ -706,12 +707,35 @@ def check_timer_transition_saved(run, only=None):
             obs['current'] = copy.deepcopy(blk.get_state())
             await circuit.shutdown()
             await asyncio.wait([task], timeout=2.0)
+            obs['saved'] = copy.deepcopy(store.get(blk.key))
+
+        async def restart(loop, kind=kind, obs=obs, store=store):
+            # the same circuit again: the restored internal state is exactly the saved one (the state
+            # data an FSM's constructor prepares - InputExp's initial value - is replaced, not merged)
+            edzed.reset_circuit()
+            circuit = edzed.get_circuit()
+            if kind == 'timer':
+                blk = edzed.Timer('blk', t_on=0.05, persistent=True)
+            else:
+                blk = edzed.InputExp('blk', duration=0.05, expired='EXP', initdef='INIT', persistent=True)
+            circuit.set_persistent_data(store)
+            task = asyncio.create_task(circuit.run_forever())
+            await circuit.wait_init()
+            obs['restored'] = copy.deepcopy(blk.get_state())
+            obs['restored_output'] = blk.output
+            await circuit.shutdown()
+            await asyncio.wait([task], timeout=2.0)
         try:
             vloop.run_virtual(main, wall_limit_s=10.0)
+            vloop.run_virtual(restart, wall_limit_s=10.0)
         except BaseException as err:                          # noqa
             obs['harness'] = repr(err)[:200]
         finally:
             edzed.reset_circuit()
+        if obs['harness'] is None and (list(obs.get('restored') or []) != list(obs.get('saved') or [])
+                                       or obs.get('restored_output') != (False if kind == 'timer' else 'EXP')):
+            obs['harness'] = None
+            obs['state'] = f"restart: saved {obs.get('saved')} but restored {obs.get('restored')}, output {obs.get('restored_output')!r}"
         run.add_case(dict(timer_transition_saved=kind), True)
         run.count('timer_transition_saved')
         want_state = 'off' if kind == 'timer' else 'expired'
@@ -726,6 +750,60 @@ def check_timer_transition_saved(run, only=None):
                           f"{obs.get('current')} - expected the storage to hold the current state "
                           f"('{want_state}'); harness: {obs['harness']}",
                           clause='timer_transition_not_saved:' + kind, concrete=True)
+
+
+def check_restored_state_data(run):
+    """'restarting from the storage restores each block to that state': the state data of an FSM are
+    REPLACED by the saved ones - an item that the constructor prepares and that an event removed before
+    the stop is not there after the restart either."""
+    obs = dict(saved=None, restored=None, harness=None)
+    store = {}
+
+    def one_run(phase):
+        async def main(loop):
+            edzed.reset_circuit()
+            circuit = edzed.get_circuit()
+
+            class Lock(edzed.FSM):
+                STATES = ['held', 'free']
+                EVENTS = [['take', 'free', 'held'], ['release', 'held', 'free']]
+
+                def __init__(self, *args, **kwargs):
+                    super().__init__(*args, **kwargs)
+                    self.sdata['holder'] = 'admin'
+
+                def enter_free(self):
+                    self.sdata.pop('holder', None)
+            blk = Lock('lock', persistent=True)
+            circuit.set_persistent_data(store)
+            task = asyncio.create_task(circuit.run_forever())
+            await circuit.wait_init()
+            if phase == 'first':
+                blk.event('release')
+            else:
+                obs['restored'] = copy.deepcopy(list(blk.get_state()))
+            await circuit.shutdown()
+            await asyncio.wait([task], timeout=2.0)
+            if phase == 'first':
+                obs['saved'] = copy.deepcopy(list(store.get(blk.key)))
+        vloop.run_virtual(main, wall_limit_s=10.0)
+    try:
+        one_run('first')
+        one_run('second')
+    except BaseException as err:                          # noqa
+        obs['harness'] = repr(err)[:200]
+    finally:
+        edzed.reset_circuit()
+    run.add_case(dict(restored_state_data=True), True)
+    run.count('restored_state_data')
+    ok = obs['harness'] is None and obs['saved'] == ['free', None, {}] and obs['restored'] == obs['saved']
+    run.add_obligation(ok)
+    if not ok:
+        run.violation('monitor', dict(case=dict(restored_state_data=True), observed=obs),
+                      f"persistent FSM whose constructor prepares the state data item 'holder' and whose state 'free' "
+                      f"removes it: saved at the stop {obs['saved']} (expected ['free', None, {{}}]), internal state "
+                      f"after the restart {obs['restored']} (expected the same); harness: {obs['harness']}",
+                      clause='restored_state_data_merged', concrete=True)
 
 
 def check_refused_write(run, only=None):
@@ -794,6 +872,8 @@ def replay(run, path):
         return common.directed_replay(run, path, lambda: check_interrupted_stop(run))
     if isinstance(case, dict) and 'restored_block_with_async_init' in case:
         return common.directed_replay(run, path, lambda: check_restored_block_with_async_init(run))
+    if isinstance(case, dict) and 'restored_state_data' in case:
+        return common.directed_replay(run, path, lambda: check_restored_state_data(run))
     if isinstance(case, dict) and 'timer_transition_saved' in case:
         return common.directed_replay(run, path,
                                       lambda: check_timer_transition_saved(run, case['timer_transition_saved']))
